@@ -84,12 +84,12 @@ theorem mapOpt_none_of_mem {α β : Type} (f : α → Option β) : ∀ (xs : Lis
 /-- the operand-level declines: an operand without `_meta` that carries labels, or an operand axis of a sliced label
 whose block count differs from the output's (broadcast) -/
 theorem operand_declines (n : Node) (oc : List (List Int)) (idx : List Idx) (o : Opd) (ho : o ∈ n.ops) :
-    (o.ind.isSome = true → o.isArr = false → acceptCoarse n oc idx = none) ∧
+    (o.ind.isSome = true → o.isArr = false → acceptCoarse0 n oc idx = none) ∧
     (∀ plans ind, axisPlans oc (fullIndex idx n.outInd.length) = some plans → o.ind = some ind →
-      opAxesSlices n.outInd plans (oc.map List.length) ind o.chunks = none → acceptCoarse n oc idx = none) := by
+      opAxesSlices n.outInd plans (oc.map List.length) ind o.chunks = none → acceptCoarse0 n oc idx = none) := by
   constructor
   · intro h1 h2
-    unfold acceptCoarse
+    unfold acceptCoarse0
     cases hp : axisPlans oc (fullIndex idx n.outInd.length) with
     | none => rfl
     | some plans =>
@@ -101,7 +101,7 @@ theorem operand_declines (n : Node) (oc : List (List Int)) (idx : List Idx) (o :
         | some ind => simp [h2]
       rw [mapOpt_none_of_mem _ n.ops o ho this]
   · intro plans ind hp hi hsl
-    unfold acceptCoarse
+    unfold acceptCoarse0
     rw [hp]
     simp only
     have : opSlice n.outInd plans (oc.map List.length) o = none := by
